@@ -158,6 +158,17 @@ def run_case(case):
         tag["index"] = "scalar" if ix == "scalar" else "vector"
         where = "%s eff=%s scaling=%s index=%s" % (ctrl, eff, case["scaling"], ix)
 
+        _orig_run = rcm.run_control
+
+        def safe_run(m):
+            try:
+                _orig_run(m)
+                return True
+            except Exception as e:
+                vs.append(viol("control_run_raises", "%s: run_control raised %s: %s" % (where, type(e).__name__, str(e)[:100]),
+                               exc=type(e).__name__, **tag))
+                return False
+
         def sel(labels):
             if ix == "scalar":
                 return labels[0]
@@ -167,7 +178,8 @@ def run_case(case):
             p.load.loc[labs, "scaling"] = sc
             tgt = [4, 2]
             P2GControlMultiEnergy(mn, sel(labs), sel(tgt), efficiency=eff)
-            rcm.run_control(mn)
+            if not safe_run(mn):
+                return {"status": "ok", "violations": vs, "states": [], "transitions": 1, "traces": 1, "nontrivial": True, "sig": core.jhash(case)}
             inp = {l: p.load.at[l, "p_mw"] * p.load.at[l, "scaling"] for l in labs}
             pairs = list(zip(labs, tgt)) if ix != "scalar" else [(labs[0], tgt[0])]
             for l, t in pairs:
@@ -185,7 +197,8 @@ def run_case(case):
             tgt = {"sgen": [1, 4], "load": [3, 2], "gen": [0, 0]}[et]
             G2PControlMultiEnergy(mn, sel(tgt) if et != "gen" else 0, sel(labs) if et != "gen" else labs[0], efficiency=eff,
                                   element_type_power=et)
-            rcm.run_control(mn)
+            if not safe_run(mn):
+                return {"status": "ok", "violations": vs, "states": [], "transitions": 1, "traces": 1, "nontrivial": True, "sig": core.jhash(case)}
             pairs = list(zip(labs, tgt)) if ix != "scalar" else [(labs[0], tgt[0])]
             for s, t in pairs:
                 want = g.sink.at[s, "mdot_kg_per_s"] * g.sink.at[s, "scaling"] * fH * 3600 / 1e3 * eff
@@ -198,7 +211,8 @@ def run_case(case):
             p.sgen.loc[labs, "scaling"] = sc
             tgt = [0, 5]
             G2PControlMultiEnergy(mn, sel(labs), sel(tgt), efficiency=eff, element_type_power="sgen", calc_gas_from_power=True)
-            rcm.run_control(mn)
+            if not safe_run(mn):
+                return {"status": "ok", "violations": vs, "states": [], "transitions": 1, "traces": 1, "nontrivial": True, "sig": core.jhash(case)}
             pairs = list(zip(labs, tgt)) if ix != "scalar" else [(labs[0], tgt[0])]
             for s, t in pairs:
                 want = p.sgen.at[s, "p_mw"] * p.sgen.at[s, "scaling"] / (fH * 3600 / 1e3 * eff)
@@ -210,7 +224,8 @@ def run_case(case):
             h.sink.loc[labs, "scaling"] = sc
             tgt = [4, 2]
             GasToGasConversion(mn, sel(labs), sel(tgt), efficiency=eff, name_gas_net_from="gas2", name_gas_net_to="gas")
-            rcm.run_control(mn)
+            if not safe_run(mn):
+                return {"status": "ok", "violations": vs, "states": [], "transitions": 1, "traces": 1, "nontrivial": True, "sig": core.jhash(case)}
             pairs = list(zip(labs, tgt)) if ix != "scalar" else [(labs[0], tgt[0])]
             for s, t in pairs:
                 want = h.sink.at[s, "mdot_kg_per_s"] * h.sink.at[s, "scaling"] * fH2 / fH * eff
